@@ -187,7 +187,9 @@ class Runs:
         def one(ic):
             i, c = ic
             fresh = worldrun.run_world(dict(c['b'], module=c['module']), idx=2 * i)
-            warm = worldrun.run_world(dict(c['b'], module=c['module'], warmup_world=c['a']), idx=2 * i + 1)
+            # the earlier run in the same interpreter is a run of another world under the same module name — or, every other
+            # case, of this very world (the same layer objects are met again: what a run leaves behind about them must not matter)
+            warm = worldrun.run_world(dict(c['b'], module=c['module'], **({'warmup_world': c['a']} if i % 2 == 0 else {'warmup_run': True})), idx=2 * i + 1)
 
             def order(o):
                 if not any(x.startswith('-j') for x in c['b']['options']):
